@@ -27,6 +27,7 @@ func reader_scanStatement_Subject_AnonOrBlankNode(r *Decoder, ectx evaluationCon
 	r.buf.BacktrackRunes(r0)
 
 	r.pushState(ectx, reader_scan_Triples_End)
+	r.pushState(ectx, reader_scan_PredicateObjectList_Continue)
 	r.pushState(ectx, reader_scan_PredicateObjectList)
 	r.pushState(ectx, reader_scan_blankNodePropertyList_End)
 	r.pushState(ectx, reader_scan_PredicateObjectList_Continue)
